@@ -1,7 +1,9 @@
 #!/venv/bin/python
-"""tools/run_seeded.py [names...] [--all-checks]: apply each seeded change to /repo (git apply), run the quick check of
-its property (or every check), record the outcome in seeded/<name>/meta.json, and undo the change straight afterwards."""
-import json, os, subprocess, sys, time
+"""tools/run_seeded.py [names...] [--all-checks] [--scratch]: apply each seeded change to /repo (git apply), run the quick
+check of its property (or every check), record the outcome in seeded/<name>/meta.json, and undo the change straight
+afterwards.  --scratch: apply the patch to a scratch copy of /repo/src under /tmp instead (removed afterwards) and point
+the checks at it through VERIF_REPO_SRC - same checks, but background runs that read /repo are not disturbed."""
+import json, os, shutil, subprocess, sys, time
 V = "/verif"
 names = [a for a in sys.argv[1:] if not a.startswith("--")] or sorted(os.listdir(os.path.join(V, "seeded")))
 ALL = ["C%02d" % i for i in list(range(1, 16)) + [19]]
@@ -11,18 +13,30 @@ for name in names:
         continue
     agent = json.load(open(os.path.join(d, "agent_meta.json"))) if os.path.exists(os.path.join(d, "agent_meta.json")) else {}
     prop = agent.get("property") or name.split("-")[-1]
-    assert subprocess.run(["git", "-C", "/repo", "status", "--porcelain", "--untracked-files=no"], capture_output=True, text=True).stdout.strip() == "", "/repo not clean"
-    subprocess.check_call(["git", "-C", "/repo", "apply", os.path.join(d, "patch.diff")])
+    scratch = "--scratch" in sys.argv
+    env = dict(os.environ)
+    if scratch:
+        sd = "/tmp/seeded-src-%d" % os.getpid()
+        shutil.rmtree(sd, ignore_errors=True)
+        shutil.copytree("/repo/src", sd + "/src", ignore=shutil.ignore_patterns("__pycache__"))
+        subprocess.check_call(["patch", "-s", "-p1", "-d", sd, "-i", os.path.join(d, "patch.diff")])
+        env["VERIF_REPO_SRC"] = sd + "/src"
+    else:
+        assert subprocess.run(["git", "-C", "/repo", "status", "--porcelain", "--untracked-files=no"], capture_output=True, text=True).stdout.strip() == "", "/repo not clean"
+        subprocess.check_call(["git", "-C", "/repo", "apply", os.path.join(d, "patch.diff")])
     results = {}
     try:
         for p in (ALL if "--all-checks" in sys.argv else [prop]):
             t0 = time.time()
-            r = subprocess.run([os.path.join(V, "bin", "check"), p, "--tier", "quick", "--no-evidence"], capture_output=True, text=True, timeout=1800)
+            r = subprocess.run([os.path.join(V, "bin", "check"), p, "--tier", "quick", "--no-evidence"], capture_output=True, text=True, timeout=1800, env=env)
             sigs = [l.strip() for l in r.stdout.splitlines() if l.strip().startswith("clause=")]
             results[p] = {"exit": r.returncode, "violations": sigs[:4], "wall_s": round(time.time() - t0, 1)}
             print(name, p, "exit", r.returncode, sigs[:1], flush=True)
     finally:
-        subprocess.check_call(["git", "-C", "/repo", "checkout", "--", "."])
+        if scratch:
+            shutil.rmtree(sd, ignore_errors=True)
+        else:
+            subprocess.check_call(["git", "-C", "/repo", "checkout", "--", "."])
     conf = open(os.path.join(d, ".confirm")).read().strip().split("|") if os.path.exists(os.path.join(d, ".confirm")) else ["?", "?", "?"]
     mp = os.path.join(d, "meta.json")
     meta = json.load(open(mp)) if os.path.exists(mp) else {}
@@ -34,5 +48,6 @@ for name in names:
     })
     meta.setdefault("checks", {}).update(results)
     meta["caught_by"] = sorted(p for p, r in meta["checks"].items() if r["exit"] == 1)
-    meta["what_i_ran"] = "git -C /repo apply seeded/%s/patch.diff; bin/check <ID> --tier quick --no-evidence; git -C /repo checkout -- ." % name
+    meta["what_i_ran"] = ("scratch copy of /repo/src + seeded/%s/patch.diff via VERIF_REPO_SRC; bin/check <ID> --tier quick --no-evidence" % name) if scratch else (
+        "git -C /repo apply seeded/%s/patch.diff; bin/check <ID> --tier quick --no-evidence; git -C /repo checkout -- ." % name)
     json.dump(meta, open(mp, "w"), indent=1)
